@@ -23,6 +23,7 @@ func init() {
 			"R07.2 also: a selection happens only when the range's q is not below the best q so far, the specificity rank a selection records is the rank its tie-break compares against, and the recorded ranks are ordered */* > type/* > exact; R07.4 also: the parameter-skipping loop of ParseAccept stops at the next range separator. " +
 			"R07.4 also: the loop over the header's lines is never left early; R07.5 also: every context a memoising accessor writes into derives from the Context() of the request it was given. " +
 			"R07.4 also: the white-space class of the octet table is exactly SP, HT, CR, LF. " +
+			"R07.2 also: the selection loops of NegotiateContentEncoding are left only when their elements are exhausted. " +
 			"NOT decided: the lexicographic maximum over (q, specificity, position) — a flipped > / >= is not claimed to be caught.",
 		Run: runC07,
 	})
